@@ -245,11 +245,7 @@ func runC08(c *core.Check) {
 		n++
 		for _, m := range []string{"SortObjectsByAST", "SortEdgesByAST"} {
 			ok, _ := fl.MustPassBefore(ex.Blk, ex.Idx, func(nd ast.Node) bool {
-				call, isCall := nd.(*ast.CallExpr)
-				if !isCall || !core.IsCallTo(info, call, "d2graph.(*Graph)."+m) {
-					return false
-				}
-				return core.ObjOf(info, call.Fun.(*ast.SelectorExpr).X) == g
+				return sortsGraph(c, info, nd, g, m, 0)
 			})
 			c.Decide(ok, "C08.sorted", "Compile:"+m+"≺success-return", ex.Ret.Pos(), "sorted on every success path", "a success return of Compile is reachable without "+m+": object/edge order then follows IR map traversal, not the source")
 		}
